@@ -12,6 +12,7 @@
   such a name, or a canonical decimal below 2^32; numbers below 2^32) and refuted outside it by the
   kernel-evaluated witnesses at the end (known findings).
 -/
+import Vise.Pins.C16
 import Vise.Lemmas.AsmOut
 import Vise.Lemmas.CodecSpec
 import Vise.Props.C14
